@@ -10,11 +10,19 @@ Delivery modes
               and control may move to another thread before every request
               frame, following an order list drawn by Hypothesis (deterministic,
               replayable frame-level interleavings of concurrent transfers)
+  baton + "deferred": true
+              as baton, but no frame is delivered inside the send call: it waits on
+              the bus, the sender yields once more, and the thread that runs next
+              delivers everything pending (frames of different CAN ids in an order
+              the case draws, per id in FIFO order) - requests to several nodes are
+              in flight at the same time and a response reaches its client's queue
+              from another thread, still deterministic and replayable
   dispatcher  frames wait in a FIFO; a dispatcher thread delivers them later
               with drawn delays, interleaved with drawn unrelated traffic
   virtual     python-can's threaded virtual bus with real Notifier threads
 """
 import math
+import struct
 import threading
 import time
 
@@ -27,24 +35,45 @@ from harness.simbus import Frame, Hub
 
 PROPERTY = "C03"
 LEVEL = "exploration"
-RULE = ("case = dictionary (variables and records over all 19 numeric types, BOOLEAN, REAL32/64, VISIBLE/"
+RULE = ("case = dictionary (variables, records and arrays over all 19 numeric types, BOOLEAN, REAL32/64, VISIBLE/"
         "UNICODE/OCTET strings, DOMAIN) + per client thread a node id and a list of (entry, access path in "
         "{index, name, 'Record.Member', [index][sub], [index][member name], get_variable(index|name, sub), "
         "Mapping protocol items()/get() of the record}, typed value) + delivery mode "
-        "(inline | baton-scheduled threads with a drawn frame-level order | dispatcher thread with drawn "
-        "delays and unrelated traffic | python-can virtual bus). Values: all type boundaries, +-2^k+-1, "
-        "random; all 8/16-bit values in the thorough tier; floats incl. inf, -0.0, subnormals; strings of "
-        "length 0..200. Oracle: remote.raw == v, local.raw == v, data_store bytes == independent CiA 301 "
-        "encoding; each thread reads back only its own values; in cases where all nodes were created from ONE "
+        "(inline | baton-scheduled threads with a drawn frame-level order, responses delivered inside the send "
+        "call | baton-deferred: every frame waits on the bus, the sender gives the baton away and the thread that "
+        "runs next delivers what is pending, different CAN ids in a drawn order, so requests to several nodes are "
+        "in flight together | dispatcher thread with drawn delays and unrelated traffic | python-can virtual bus). "
+        "Values: all type boundaries, +-2^k+-1, random; all 8/16-bit values in the thorough tier; floats incl. inf, "
+        "-0.0, subnormals, NaN (quiet/negative/payload; for a NaN the stored bytes must be a NaN pattern of the "
+        "type's width and both read-backs NaN - sign and payload are not pinned); UNICODE strings over all scalar "
+        "values incl. beyond the BMP (UTF-16 surrogate pairs), strings of 0..200 bytes. Names: top-level object, "
+        "record, array and member names may contain '.', and an object may be named like '<record>.<member>' of "
+        "another object (by-name access must reach the object that carries the name; the qualified spelling is "
+        "used for a member only where it is unambiguous). Arrays: also elements beyond the declared members "
+        "(typed like element 1), addressed by sub-index through every path. Stray responses on the client's own "
+        "channel (8 kinds: upload/download/segment responses, aborts) arrive at every moment the client is not "
+        "waiting: before an op, between write and read-back, right after the k-th response of a running "
+        "(segmented) transfer, before an abandoned upload, before the final reads. Oracle: remote.raw == v, "
+        "local.raw == v, data_store bytes == independent CiA 301 "
+        "encoding; each thread reads back only its own values; at the end every entry still reads as written last; "
+        "in cases where all nodes were created from ONE "
         "ObjectDictionary object, a node's entry read before that node's first write answers exactly like a "
-        "node nobody wrote to (differential against a pristine rig). Member names may contain '.'. Non-trivial = boundary value, payload > 4 "
+        "node nobody wrote to (differential against a pristine rig). The concurrent enumerations run first, in a "
+        "fresh process state. Non-trivial = boundary value, payload > 4 "
         "bytes, or a non-inline mode; distinct = canonical JSON.")
 ASSUMPTIONS = [
     "thread interleavings are explored at frame granularity by a harness-owned schedule (one runnable thread "
     "at a time); finer-grained races inside a single callback are only sampled by the dispatcher/virtual modes",
     "in threaded modes RESPONSE_TIMEOUT is 5 s (>1000x the injected delays); a time-out there is reported as "
-    "a harness error, not as a violation",
-    "strings carry no trailing NUL (decode_raw documents stripping them); REAL32 values are binary32-representable",
+    "a harness error, not as a violation; in the baton modes no wait ever depends on time (the response is in the "
+    "client's queue before the client starts waiting)",
+    "strings carry no trailing NUL (decode_raw documents stripping them); REAL32 values are binary32-representable; "
+    "REAL32 NaNs are quiet ones",
+    "a response-like frame on the client's own channel counts as unrelated traffic only while the client has no "
+    "request outstanding (the library discards such frames before its next request); NMT commands in the drawn "
+    "noise address nodes that do not take part (an NMT command to a participating node is not unrelated)",
+    "the 'Record.Member' spelling is not used where it is ambiguous (record name containing '.', or an object "
+    "carrying the qualified name itself); undeclared array elements have no name and are addressed by sub-index",
 ]
 BUDGET = {"quick": 150, "thorough": 420}
 
@@ -116,12 +145,21 @@ def make_network_class():
         """Network.send_message is documented as overridable; the override only
         adds a scheduling point in front of the real method."""
         baton = None
+        deferred = None       # baton mode with deferred delivery: callable that delivers what waits on the bus
+        after_send = None     # inline mode: callable(can_id) run when the send (and its inline delivery) is over
 
         def send_message(self, can_id, data, remote=False):
             t = getattr(_tls, "index", None)
             if self.baton is not None and t is not None:
                 self.baton.yield_point(t)
-            return super().send_message(can_id, data, remote)
+            r = super().send_message(can_id, data, remote)
+            if self.baton is not None and t is not None and self.deferred is not None:
+                # the frame waits on the bus; other threads may send theirs before anything is delivered
+                self.baton.yield_point(t)
+                self.deferred()
+            if self.after_send is not None:
+                self.after_send(can_id)
+            return r
 
     return ScheduledNetwork
 
@@ -130,18 +168,25 @@ PATHS = ["index", "name", "dotted", "sub", "member", "getvar", "getvar_name", "v
 
 
 def get_var(sdo, od_entry, path):
-    index, sub, name, parent_name, top = od_entry
+    index, sub, name, parent_name, top = od_entry[:5]
+    dotted_ok = od_entry[6] if len(od_entry) > 6 else True
     if top:
         if path in ("getvar", "values"):
             return sdo.get_variable(index)
         if path == "getvar_name":
             return sdo.get_variable(name)
         return sdo[index] if path in ("index", "sub", "member") else sdo[name]
+    if name is None:
+        # element of an array beyond the declared members: it has no declared name, only a sub-index
+        if path in ("index", "sub", "member"):
+            return sdo[index][sub]
+        if path in ("name", "dotted"):
+            return sdo[parent_name][sub]
     if path == "index" or path == "sub":
         return sdo[index][sub]
     if path == "member":
         return sdo[index][name]
-    if path == "name":
+    if path == "name" or (path == "dotted" and not dotted_ok):
         return sdo[parent_name][name]
     if path == "getvar":
         return sdo.get_variable(index, sub)
@@ -160,28 +205,93 @@ def get_var(sdo, od_entry, path):
 
 
 def flat_entries(od):
+    """(index, sub, name, parent name, top-level?, data type, 'Record.Member' spelling usable?) per entry.
+    The qualified spelling is only used where it is unambiguous: the record's own name has no '.', and no
+    object is called '<record>.<member>' itself. Arrays may list "extra_subs": elements beyond the declared
+    members (typed like element 1, CiA 301 arrays are homogeneous; they have no declared name)."""
     out = []
+    tops = {o["name"] for o in od}
     for o in od:
         if o["kind"] == "var":
-            out.append((o["index"], 0, o["name"], None, True, o["dt"]))
+            out.append((o["index"], 0, o["name"], None, True, o["dt"], True))
         else:
+            declared = set()
             for m in o["members"]:
+                declared.add(m["sub"])
                 if m["sub"] == 0:
                     continue
-                out.append((o["index"], m["sub"], m["name"], o["name"], False, m["dt"]))
+                ok = "." not in o["name"] and f"{o['name']}.{m['name']}" not in tops
+                out.append((o["index"], m["sub"], m["name"], o["name"], False, m["dt"], ok))
+            if o["kind"] == "array" and 1 in declared:
+                dt1 = [m["dt"] for m in o["members"] if m["sub"] == 1][0]
+                for s in o.get("extra_subs") or []:
+                    if 1 <= s <= 254 and s not in declared:
+                        declared.add(s)
+                        out.append((o["index"], s, None, o["name"], False, dt1, False))
     return out
 
 
-def check_value(tag, dt, v, remote_var, local_var, local_node, index, sub, D):
+def val(v):
+    """Typed value of an op: NaNs travel through the JSON case as {"nan": <binary64 bits, hex>}."""
+    if isinstance(v, dict) and "nan" in v:
+        return struct.unpack("<d", int(v["nan"], 16).to_bytes(8, "little"))[0]
+    return v
+
+
+def _is_nan(dt, v):
+    return dt in rc.REALS and isinstance(v, float) and math.isnan(v)
+
+
+def stored_ok(dt, v, stored):
+    if stored is None:
+        return False
+    stored = bytes(stored)
+    if _is_nan(dt, v):
+        # every NaN pattern of the right width is an encoding of NaN (sign and payload are not pinned)
+        w = rc.REALS[dt]
+        mb = 23 if w == 32 else 52
+        bits = int.from_bytes(stored, "little")
+        return len(stored) == w // 8 and (bits >> mb) & ((1 << (w - 1 - mb)) - 1) == (1 << (w - 1 - mb)) - 1 \
+            and bits & ((1 << mb) - 1) != 0
+    return stored == rc.encode(dt, v)
+
+
+def want_hex(dt, v):
+    return "a NaN pattern" if _is_nan(dt, v) else rc.encode(dt, v).hex()
+
+
+STALE_FRAMES = [
+    bytes([0x43, 0x00, 0x10, 0x00, 0x91, 0x01, 0x0F, 0x00]),   # expedited upload response for 0x1000:0
+    bytes([0x60, 0x00, 0x10, 0x00, 0, 0, 0, 0]),               # download confirmation
+    bytes([0x80, 0x00, 0x10, 0x00, 0x00, 0x00, 0x02, 0x06]),   # abort: object does not exist (node scan)
+    bytes([0x41, 0x08, 0x10, 0x00, 0x10, 0, 0, 0]),            # segmented upload initiate, 16 bytes
+    bytes([0x00]) + b"abcdefg",                                # upload segment
+    bytes([0x11]) + b"hijklmn",                                # last upload segment, toggled
+    bytes([0x20, 0, 0, 0, 0, 0, 0, 0]),                        # download segment confirmation
+    bytes([0x4F, 0x18, 0x10, 0x01, 0x2A, 0, 0, 0]),            # one-byte expedited upload response
+]
+
+
+def stale_frame(node, kind, j):
+    """j-th stray response on the SDO channel of `node`; kind 0 is the classic left-over of a read of 0x1000."""
+    if not kind:
+        data = bytes([0x43, 0x00, 0x10, 0x00, 0x91 + j, 0x01, 0x0F, 0x00])
+    else:
+        data = STALE_FRAMES[(kind + j) % len(STALE_FRAMES)]
+    return Frame(0x580 + node, data)
+
+
+def check_value(tag, dt, v, remote_var, local_var, local_node, index, sub, D, between=None):
     def bad(kind, detail):
         D.append(Discrepancy(f"C03/{kind}", f"{tag}: {detail}"))
     remote_var.raw = v
-    want = rc.encode(dt, v)
     stored = local_node.data_store.get(index, {}).get(sub)
-    if stored is None or bytes(stored) != want:
+    if not stored_ok(dt, v, stored):
         bad("stored-bytes", f"{rc.NAMES[dt]} {v!r}: local node holds "
-                            f"{bytes(stored).hex() if stored is not None else None} want {want.hex()}")
+                            f"{bytes(stored).hex() if stored is not None else None} want {want_hex(dt, v)}")
         return
+    if between is not None:
+        between()
     back = remote_var.raw
     if not _same(dt, back, v):
         bad("remote-readback", f"{rc.NAMES[dt]} wrote {v!r} read back {back!r}")
@@ -191,20 +301,21 @@ def check_value(tag, dt, v, remote_var, local_var, local_node, index, sub, D):
         bad("local-readback", f"{rc.NAMES[dt]} wrote {v!r}, local side reads {loc!r}")
 
 
-def final_sweep(tag, remote, local, last, D):
+def final_sweep(tag, remote, local, last, D, before_read=None):
     """Every entry still holds the value written to it last - also after later writes to
     other entries (e.g. other members of the same record)."""
     for (index, sub), (e, path, v) in last.items():
         dt = e[5]
         try:
-            want = rc.encode(dt, v)
             stored = local.data_store.get(index, {}).get(sub)
-            if stored is None or bytes(stored) != want:
+            if not stored_ok(dt, v, stored):
                 D.append(Discrepancy("C03/final/stored-bytes",
                                      f"{tag}: {index:04x}:{sub:02x} {rc.NAMES[dt]} last written {v!r}: local node "
                                      f"holds {bytes(stored).hex() if stored is not None else None} at the end"))
                 return
-            back = get_var(remote.sdo, e[:5], path).raw
+            if before_read is not None:
+                before_read()
+            back = get_var(remote.sdo, e, path).raw
             if not _same(dt, back, v):
                 D.append(Discrepancy("C03/final/remote-readback",
                                      f"{tag}: {index:04x}:{sub:02x} {rc.NAMES[dt]} last written {v!r}, reads "
@@ -259,7 +370,7 @@ def pristine_reads(od_spec, source, ent):
     out = {}
     for e in ent:
         try:
-            out[(e[0], e[1])] = ("value", get_var(remote.sdo, e[:5], "index").raw)
+            out[(e[0], e[1])] = ("value", get_var(remote.sdo, e, "index").raw)
         except canopen.SdoAbortedError as ex:
             out[(e[0], e[1])] = ("abort", ex.code)
     return out
@@ -280,7 +391,7 @@ def run_case(case) -> Outcome:
                 nontrivial = True
                 continue
             dt = ent[op["e"] % len(ent)][5]
-            v = op["v"]
+            v = val(op["v"])
             if dt in rc.INTEGERS:
                 lo, hi = rc.int_range(dt)
                 if v in (lo, hi) or abs(v) > 255:
@@ -321,27 +432,49 @@ def run_case(case) -> Outcome:
         last = {}
         for k, op in enumerate(threads[t]["ops"]):
             e = ent[op["e"] % len(ent)]
-            index, sub, name, pname, top, dt = e
-            tag = f"mode {mode} thread {t} node {threads[t]['node']} op {k} {index:04x}:{sub:02x} via {op['path']}"
-            if mode == "inline" and op.get("stale"):
+            index, sub, name, pname, top, dt = e[:6]
+            v = val(op.get("v"))
+            nid = threads[t]["node"]
+            tag = f"mode {mode} thread {t} node {nid} op {k} {index:04x}:{sub:02x} via {op['path']}"
+            kind = op.get("stale_kind", 0)
+
+            def stale(n, kind=kind, nid=nid):
                 # responses nobody is waiting for arrive on this client's channel while it is idle (what a
                 # node scan or another master's read of object 0x1000 leaves behind): unrelated traffic
-                for j in range(op["stale"]):
-                    hub.inject(Frame(0x580 + threads[t]["node"],
-                                     bytes([0x43, 0x00, 0x10, 0x00, 0x91 + j, 0x01, 0x0F, 0x00])))
+                for j in range(n):
+                    hub.inject(stale_frame(nid, kind, j))
+
+            if mode == "inline" and op.get("stale"):
+                stale(op["stale"])
+            net_c.after_send = None
+            if mode == "inline" and op.get("stale_seg"):
+                # ... or right after one of the responses of a running transfer, i.e. between two of its
+                # requests (the client is not waiting for anything at that moment either)
+                sent = {"n": 0}
+
+                def after_send(can_id, sent=sent, at=op["stale_seg"], stale=stale):
+                    sent["n"] += 1
+                    if sent["n"] == at:
+                        stale(1)
+                net_c.after_send = after_send
+            between = None
+            if mode == "inline" and op.get("stale_rb"):
+                between = (lambda n=op["stale_rb"], stale=stale: stale(n))
             if op.get("partial") is not None:
                 # an upload through the stream interface that the caller does not read to the end
                 if (index, sub) in last:
                     try:
-                        with get_var(remote.sdo, e[:5], op["path"]).open("rb", buffering=op.get("buf", 0)) as f:
+                        with get_var(remote.sdo, e, op["path"]).open("rb", buffering=op.get("buf", 0)) as f:
                             f.read(op["partial"])
                     except Exception as ex:
                         local_D.append(Discrepancy("C03/partial-read-raises", f"{tag}: {type(ex).__name__}: {ex}"))
                         break
+                    finally:
+                        net_c.after_send = None
                 continue
             try:
-                rv = get_var(remote.sdo, e[:5], op["path"])
-                lv = get_var(local.sdo, e[:5], op["path"])
+                rv = get_var(remote.sdo, e, op["path"])
+                lv = get_var(local.sdo, e, op["path"])
                 if shared and (index, sub) not in last:
                     # nothing was written to this entry of THIS node yet: it must answer like a node that was
                     # never written to at all, whatever the other nodes have received meanwhile
@@ -355,15 +488,22 @@ def run_case(case) -> Outcome:
                         local_D.append(Discrepancy("C03/other-nodes-data", f"{tag}: read before this node's first "
                                                    f"write gives {got!r}; an untouched node gives {want!r}"))
                         break
-                check_value(tag, dt, op["v"], rv, lv, local, index, sub, local_D)
-                last[(index, sub)] = (e, op["path"], op["v"])
+                check_value(tag, dt, v, rv, lv, local, index, sub, local_D, between)
+                last[(index, sub)] = (e, op["path"], v)
             except Exception as ex:
-                local_D.append(Discrepancy("C03/raises", f"{tag}: {rc.NAMES[dt]} {op['v']!r}: "
+                local_D.append(Discrepancy("C03/raises", f"{tag}: {rc.NAMES[dt]} {v!r}: "
                                                          f"{type(ex).__name__}: {ex}"))
+            finally:
+                net_c.after_send = None
             if local_D:
                 break
         if not local_D:
-            final_sweep(f"mode {mode} thread {t} node {threads[t]['node']}", remote, local, last, local_D)
+            before_read = None
+            if mode == "inline" and case.get("stale_final"):
+                before_read = (lambda n=case["stale_final"], nid=threads[t]["node"], kind=case.get("stale_kind", 0):
+                               [hub.inject(stale_frame(nid, kind, j)) for j in range(n)])
+            final_sweep(f"mode {mode} thread {t} node {threads[t]['node']}", remote, local, last, local_D,
+                        before_read)
         with lock:
             D.extend(local_D)
 
@@ -373,6 +513,27 @@ def run_case(case) -> Outcome:
     elif mode == "baton":
         baton = Baton(len(threads), case.get("order", []))
         net_c.baton = baton
+        if case.get("deferred"):
+            # responses are not delivered inside the send call: every frame waits on the bus, the sender gives
+            # the baton away, and whichever thread runs next delivers what is pending - the responses of
+            # different nodes in an order the case chooses (per CAN id the order of the frames is kept)
+            hub.queued = True
+            picks = case.get("deliver") or [0]
+            dstate = {"i": 0}
+
+            def deliver_pending():
+                while hub.fifo:
+                    firsts, seen = [], set()
+                    for i_, f_ in enumerate(hub.fifo):
+                        if f_.can_id not in seen:
+                            seen.add(f_.can_id)
+                            firsts.append(i_)
+                    j_ = firsts[picks[dstate["i"] % len(picks)] % len(firsts)]
+                    dstate["i"] += 1
+                    fr_ = hub.fifo[j_]
+                    del hub.fifo[j_]
+                    hub._deliver(fr_)
+            net_c.deferred = deliver_pending
 
         def runner(t):
             _tls.index = t
@@ -390,6 +551,8 @@ def run_case(case) -> Outcome:
             th_.join(90)
             if th_.is_alive():
                 raise RuntimeError("baton-scheduled client thread did not finish")
+        if hub.fifo:
+            raise RuntimeError("baton: frames left on the bus after all threads finished")
     elif mode == "dispatcher":
         hub.queued = True
         stop = threading.Event()
@@ -397,6 +560,10 @@ def run_case(case) -> Outcome:
         # "unrelated" traffic must not use a CAN id that belongs to one of the participating nodes
         own = {base + th["node"] for th in threads for base in (0x580, 0x600, 0x700, 0x80)}
         noise = [nz if (nz is None or nz[0] not in own) else None for nz in (case.get("noise") or [])]
+        # ... and an NMT command is only unrelated when it addresses some other node (not all nodes, not ours)
+        nodes = {th["node"] for th in threads}
+        noise = [None if (nz is not None and nz[0] == 0 and (len(nz[1]) < 2 or bytes(nz[1])[1] == 0
+                                                             or bytes(nz[1])[1] in nodes)) else nz for nz in noise]
         state = {"i": 0}
 
         def dispatch():
@@ -437,7 +604,7 @@ def run_case(case) -> Outcome:
     timeouts = [d for d in D if "No SDO response received" in d.detail]
     if timeouts and mode in ("dispatcher",):
         raise RuntimeError(f"inconclusive: time-out in a threaded mode: {timeouts[0]}")
-    klass = f"{mode}/{len(threads)}thr"
+    klass = f"{mode}{'-deferred' if mode == 'baton' and case.get('deferred') else ''}/{len(threads)}thr"
     return Outcome(nontrivial, klass, D[:1])
 
 
@@ -475,14 +642,14 @@ def _run_virtual(case, ent, nontrivial):
             last = {}
             for k, op in enumerate(case["threads"][t]["ops"]):
                 e = ent[op["e"] % len(ent)]
-                index, sub, name, pname, top, dt = e
+                index, sub, name, pname, top, dt = e[:6]
                 tag = f"mode virtual thread {t} op {k} {index:04x}:{sub:02x} via {op['path']}"
                 if op.get("partial") is not None:
                     continue
                 try:
-                    check_value(tag, dt, op["v"], get_var(remote.sdo, e[:5], op["path"]),
-                                get_var(local.sdo, e[:5], op["path"]), local, index, sub, local_D)
-                    last[(index, sub)] = (e, op["path"], op["v"])
+                    check_value(tag, dt, val(op["v"]), get_var(remote.sdo, e, op["path"]),
+                                get_var(local.sdo, e, op["path"]), local, index, sub, local_D)
+                    last[(index, sub)] = (e, op["path"], val(op["v"]))
                 except Exception as ex:
                     local_D.append(Discrepancy("C03/raises", f"{tag}: {type(ex).__name__}: {ex}"))
                 if local_D:
@@ -526,18 +693,52 @@ def value_strategy(dt):
                         pts.add(b + d)
         return st.one_of(st.sampled_from(sorted(pts)), st.integers(lo, hi))
     if dt == rc.REAL32:
-        return st.one_of(st.floats(width=32, allow_nan=False),
+        return st.one_of(st.floats(width=32, allow_nan=True),
                          st.sampled_from([float("inf"), float("-inf"), -0.0, 0.0, 1.401298464324817e-45,
-                                          3.4028234663852886e38]))
+                                          3.4028234663852886e38] + [val(n) for n in NANS[rc.REAL32]])
+                         ).map(lambda x: nan_spec(rc.REAL32, x))
     if dt == rc.REAL64:
-        return st.one_of(st.floats(allow_nan=False),
-                         st.sampled_from([float("inf"), float("-inf"), -0.0, 5e-324, 1.7976931348623157e308]))
+        return st.one_of(st.floats(allow_nan=True),
+                         st.sampled_from([float("inf"), float("-inf"), -0.0, 5e-324, 1.7976931348623157e308] +
+                                         [val(n) for n in NANS[rc.REAL64]])).map(lambda x: nan_spec(rc.REAL64, x))
     if dt == rc.VISIBLE_STRING:
         return st.text(st.characters(min_codepoint=0, max_codepoint=127), max_size=200).map(lambda s: s.rstrip("\0"))
     if dt == rc.UNICODE_STRING:
-        return st.text(st.characters(min_codepoint=0, max_codepoint=0xFFFF, exclude_categories=["Cs"]),
-                       max_size=100).map(lambda s: s.rstrip("\0"))
+        # every Unicode scalar value (UTF-16 needs a surrogate pair beyond the BMP); at most 200 bytes encoded
+        return st.one_of(
+            st.text(st.characters(min_codepoint=0, max_codepoint=0x10FFFF, exclude_categories=["Cs"]), max_size=100),
+            st.text(st.sampled_from("a\u00e9\u4e2d\uffff\U00010000\U0001F600\U000E0041\U0010FFFF "), max_size=60),
+        ).map(fit_unicode)
     return st.binary(max_size=200)
+
+
+def fit_unicode(s):
+    n, out = 0, []
+    for ch in s:
+        n += 4 if ord(ch) > 0xFFFF else 2
+        if n > 200:
+            break
+        out.append(ch)
+    return "".join(out).rstrip("\0")
+
+
+def nan_spec(dt, x):
+    """NaNs are kept in the case by their bits so that a stored failure replays with the same NaN. For REAL32
+    only NaNs that binary32 can hold, and only quiet ones (what a conversion does to a signalling NaN differs
+    between platforms)."""
+    if not (isinstance(x, float) and math.isnan(x)):
+        return x
+    bits = int.from_bytes(struct.pack("<d", x), "little")
+    if dt == rc.REAL32:
+        bits = (bits & ~((1 << 29) - 1)) | (1 << 51)
+    return {"nan": f"{bits:016x}"}
+
+
+# quiet NaN, negative quiet NaN, quiet NaNs with a payload, (REAL64 only) a signalling NaN
+NANS = {rc.REAL32: [{"nan": "7ff8000000000000"}, {"nan": "fff8000000000000"}, {"nan": "7ff8000020000000"},
+                    {"nan": "7ffd555540000000"}],
+        rc.REAL64: [{"nan": "7ff8000000000000"}, {"nan": "fff8000000000000"}, {"nan": "7ff8000000000001"},
+                    {"nan": "7ffdeadbeef01234"}, {"nan": "7ff0000000000001"}]}
 
 
 ALL_DTS = [rc.BOOLEAN] + sorted(rc.NUMERIC) + list(rc.STRINGS)
@@ -551,7 +752,8 @@ def od_strategy(draw):
     idxs = sorted(draw(st.sets(INDEX, min_size=n, max_size=n)))
     od = []
     for k, index in enumerate(idxs):
-        name = f"o{k} " + draw(st.text(NAME_ALPHA, min_size=1, max_size=8)).strip()
+        # names as vendors write them: "Max. speed", "Supply 3.3V", "rev. 1.x" - also for top-level objects
+        name = f"o{k} " + draw(st.text(NAME_ALPHA + "..", min_size=1, max_size=8)).strip()
         name = name.strip() or f"o{k}"
         if draw(st.booleans()):
             od.append({"kind": "var", "index": index, "name": name, "dt": draw(st.sampled_from(ALL_DTS))})
@@ -565,7 +767,25 @@ def od_strategy(draw):
                 od[-1]["kind"] = "record"
             for m in od[-1]["members"]:
                 m["name"] = m["name"].strip()
+            if od[-1]["kind"] == "array" and draw(st.booleans()):
+                # elements of the array beyond the ones the dictionary spells out
+                od[-1]["extra_subs"] = draw(st.lists(st.integers(1, 254), min_size=1, max_size=3, unique=True))
+    recs = [o for o in od if o["kind"] != "var"]
+    if recs and draw(st.integers(0, 3)) == 0:
+        # an object whose own name reads like the qualified name of a member of another object
+        o = draw(st.sampled_from(recs))
+        m = draw(st.sampled_from(o["members"][1:]))
+        od.append({"kind": "var", "index": 0xA000 + draw(st.integers(0, 0xFF)), "name": f"{o['name']}.{m['name']}",
+                   "dt": draw(st.sampled_from(ALL_DTS))})
     return od
+
+
+def _draw_stale(draw, op):
+    """Where the stray responses arrive: before the op, between the write and the read-back, or right after the
+    k-th response of the op's transfers (i.e. between two segments)."""
+    where = draw(st.sampled_from(["stale", "stale", "stale_rb", "stale_seg"]))
+    op[where] = draw(st.integers(1, 3 if where != "stale_seg" else 30))
+    op["stale_kind"] = draw(st.sampled_from([0, 0] + list(range(1, len(STALE_FRAMES) + 1))))
 
 
 @st.composite
@@ -586,19 +806,27 @@ def case_strategy(draw, modes):
             ops.append({"e": e, "path": draw(st.sampled_from(PATHS)),
                         "v": draw(value_strategy(dt))})
             if mode == "inline" and draw(st.integers(0, 4)) == 0:
-                ops[-1]["stale"] = draw(st.integers(1, 3))
+                _draw_stale(draw, ops[-1])
             if draw(st.integers(0, 5)) == 0:
                 # abandon an upload of something written before, half-way
-                prev = draw(st.sampled_from(ops))
+                prev = draw(st.sampled_from([o_ for o_ in ops if "v" in o_]))
                 ops.append({"e": prev["e"], "path": prev["path"], "partial": draw(st.integers(0, 12)),
                             "buf": draw(st.sampled_from([0, 0, 3, 1024]))})
+                if mode == "inline" and draw(st.integers(0, 3)) == 0:
+                    _draw_stale(draw, ops[-1])
         threads.append({"node": node_ids[t], "ops": ops})
     case = {"od": od, "mode": mode, "threads": threads,
             "od_source": draw(st.sampled_from(["code", "code", "eds"]))}
     if shared:
         case["shared_od"] = True
+    if mode == "inline" and draw(st.integers(0, 4)) == 0:
+        case["stale_final"] = draw(st.integers(1, 2))
+        case["stale_kind"] = draw(st.integers(0, len(STALE_FRAMES)))
     if mode == "baton":
         case["order"] = draw(st.lists(st.integers(0, 7), min_size=0, max_size=200))
+        if draw(st.booleans()):
+            case["deferred"] = True
+            case["deliver"] = draw(st.lists(st.integers(0, 7), min_size=1, max_size=12))
     if mode == "dispatcher":
         case["delays"] = draw(st.lists(st.sampled_from([0, 0, 0, 0.2, 1, 3]), min_size=1, max_size=8))
         case["noise"] = draw(st.lists(st.one_of(
@@ -622,7 +850,38 @@ def typed_od():
                 {"sub": 2, "name": "Gain (approx.)", "dt": rc.REAL32},
                 {"sub": 3, "name": "rev. 1.x name", "dt": rc.VISIBLE_STRING},
                 {"sub": 4, "name": ".hidden", "dt": rc.INTEGER32}]})
+    # an array: two elements spelled out, the others exist all the same (CiA 301: all elements have the type of
+    # element 1)
+    od.append({"kind": "array", "index": 0x3002, "name": "Table", "members":
+               [{"sub": 0, "name": "count", "dt": rc.UNSIGNED8},
+                {"sub": 1, "name": "Table 1", "dt": rc.INTEGER32},
+                {"sub": 2, "name": "Table 2", "dt": rc.INTEGER32}], "extra_subs": [3, 0x40, 0xFE]})
     return od
+
+
+def dotted_od():
+    """Object names as vendors write them - with dots, also at the top level - and an object whose plain name
+    reads like the qualified name of a member of another object."""
+    m = lambda sub, name, dt: {"sub": sub, "name": name, "dt": dt}
+    return [
+        {"kind": "var", "index": 0x2000, "name": "Plain counter", "dt": rc.UNSIGNED32},
+        {"kind": "var", "index": 0x2001, "name": "Max. speed", "dt": rc.UNSIGNED16},
+        {"kind": "var", "index": 0x2002, "name": "Supply 3.3V level", "dt": rc.INTEGER16},
+        {"kind": "var", "index": 0x2003, "name": "Fw ver. string", "dt": rc.VISIBLE_STRING},
+        {"kind": "var", "index": 0x2004, "name": "Gain approx.", "dt": rc.REAL32},
+        {"kind": "var", "index": 0x2005, "name": ".cfg blob", "dt": rc.DOMAIN},
+        {"kind": "var", "index": 0x2006, "name": "a.b.c", "dt": rc.UNSIGNED8},
+        {"kind": "record", "index": 0x2010, "name": "Motor", "members":
+            [m(0, "Highest subindex", rc.UNSIGNED8), m(1, "Speed", rc.INTEGER32), m(2, "Torque", rc.INTEGER16)]},
+        {"kind": "var", "index": 0x2011, "name": "Motor.Speed", "dt": rc.UNSIGNED16},
+        {"kind": "var", "index": 0x2012, "name": "Motor.Torque", "dt": rc.INTEGER16},
+        {"kind": "record", "index": 0x2020, "name": "Temp. sensor", "members":
+            [m(0, "count", rc.UNSIGNED8), m(1, "raw", rc.INTEGER24), m(2, "deg. C", rc.REAL64),
+             m(3, "label", rc.UNICODE_STRING)]},
+        {"kind": "array", "index": 0x2030, "name": "Calib. table", "members":
+            [m(0, "count", rc.UNSIGNED8), m(1, "pt. 1", rc.UNSIGNED24), m(2, "pt. 2", rc.UNSIGNED24)],
+         "extra_subs": [3, 0x7F]},
+    ]
 
 
 def _some_value(dt, i):
@@ -635,6 +894,61 @@ def _some_value(dt, i):
     if dt in (rc.VISIBLE_STRING, rc.UNICODE_STRING):
         return f"member {i}"
     return bytes([i % 256]) * 9
+
+
+def enum_concurrency(thorough):
+    """Run first, while the process is fresh (nothing an earlier case left behind in the library can hide or
+    heal a missing separation between the clients)."""
+    od = typed_od()
+    ent = flat_entries(od)
+    pick = lambda dt: [i for i, en in enumerate(ent) if en[5] == dt][0]
+    # requests of 2..3 threads to different nodes are in flight at the same time (responses delivered later,
+    # from whichever thread runs next, in a chosen order): same entries, node-specific values
+    sets = [[rc.UNSIGNED16, rc.UNSIGNED32], [rc.VISIBLE_STRING, rc.DOMAIN, rc.INTEGER64]]
+    if thorough:
+        sets += [[rc.REAL64, rc.UNICODE_STRING], [rc.INTEGER8, rc.OCTET_STRING, rc.UNSIGNED24]]
+
+    def ops_for(dts, t):
+        ops = []
+        for n_, dt in enumerate(dts):
+            i = pick(dt)
+            if dt in rc.INTEGERS:
+                v = (0x1111111111111111 * (t + 1) + n_) & rc.int_range(dt)[1]
+            elif dt in rc.REALS:
+                v = 1000.5 * (t + 1)
+            elif dt in (rc.VISIBLE_STRING, rc.UNICODE_STRING):
+                v = f"node-specific text of thread {t} " + "abc"[t] * (3 + 4 * t)
+            else:
+                v = bytes([0x11 * (t + 1)]) * (9 + 5 * t)
+            ops.append({"e": i, "path": ["index", "name", "getvar"][(t + n_) % 3], "v": v})
+        return ops
+
+    for dts in sets:
+        for nthr, orders in ((2, ([0, 1], [1, 0], [0, 0, 1], [0, 1, 1, 0], [1, 0, 0, 1, 1], [0, 1, 1])),
+                             (3, ([0, 1, 2], [2, 1, 0], [0, 1, 2, 2, 1, 0], [1, 2, 0, 0]))):
+            for order in orders:
+                for deliver in ([0], [1], [2, 0, 1], [0, 1, 1]):
+                    for shared in (False, True):
+                        if shared and not (deliver == [1] or thorough):
+                            continue
+                        case = {"od": od, "mode": "baton", "deferred": True, "order": order * 60,
+                                "deliver": deliver,
+                                "threads": [{"node": 31 + t, "ops": ops_for(dts, t)} for t in range(nthr)]}
+                        if shared:
+                            case["shared_od"] = True
+                        yield case
+    # deterministic interleavings of two segmented transfers to different nodes
+    sdt = pick(rc.DOMAIN)
+    vdt = pick(rc.VISIBLE_STRING)
+    for n in (5, 8, 15, 40):
+        for pattern in ([0, 1], [0, 0, 1], [1, 0, 0, 1, 1], [0, 1, 1, 0]):
+            yield {"od": od, "mode": "baton", "order": pattern * 40,
+                   "threads": [{"node": 11, "ops": [{"e": sdt, "path": "index", "v": bytes([0xAA]) * n},
+                                                    {"e": vdt, "path": "name", "v": "A" * n}]},
+                               {"node": 12, "ops": [{"e": sdt, "path": "index", "v": bytes([0x55]) * (n + 3)},
+                                                    {"e": vdt, "path": "name", "v": "b" * (n + 2)}]}]}
+
+
 
 
 def enum_cases(thorough):
@@ -655,10 +969,12 @@ def enum_cases(thorough):
             vals = [0.0, -0.0, 1.5, float("inf"), float("-inf"), -2.5e-45 if dt == rc.REAL32 else -5e-324]
             if dt == rc.REAL32:
                 vals = [0.0, -0.0, 1.5, float("inf"), float("-inf"), 1.401298464324817e-45, 3.4028234663852886e38]
+            vals = vals + NANS[dt]
         elif dt == rc.VISIBLE_STRING:
             vals = ["", "a", "abcd", "abcde", "1234567", "12345678", "x" * 200, "\x00lead", "in\x00side"]
         elif dt == rc.UNICODE_STRING:
-            vals = ["", "a", "ab", "abc", "﻿bom", "￾", "中文", "z" * 100]
+            vals = ["", "a", "ab", "abc", "﻿bom", "￾", "中文", "z" * 100,
+                    "pump \U0001F600 7", "\U00010000", "\U0010FFFFa", "\U0001F600" * 50]
         else:
             vals = [b"", b"\x00", b"\x01\x02\x03\x04", b"\x01\x02\x03\x04\x05", bytes(range(7)), bytes(range(8)),
                     bytes(200), bytes([255] * 199)]
@@ -668,6 +984,35 @@ def enum_cases(thorough):
                        "threads": [{"node": 7, "ops": [{"e": e, "path": p, "v": v, "stale": j % 4} for j, v in enumerate(vals)]}]}
             yield {"od": od, "mode": "inline", "threads": [{"node": 7, "ops": [{"e": e, "path": p, "v": v} for v in vals]}],
                    "od_source": "eds" if (k + e) % 2 else "code"}
+    # names with dots (top-level objects, records, arrays), an object named like a qualified member of another
+    # one, array elements beyond the declared ones: every entry through every access path; all of them in one
+    # history per path so that a value landing in the wrong object shows in the final sweep as well
+    dod = dotted_od()
+    dent = flat_entries(dod)
+    for k, p in enumerate(paths):
+        for src in ("code", "eds"):
+            yield {"od": dod, "mode": "inline", "od_source": src, "threads": [{"node": 9, "ops": [
+                {"e": i, "path": p, "v": _some_value(en[5], i + k)} for i, en in enumerate(dent)]}]}
+            yield {"od": dod, "mode": "inline", "od_source": src, "shared_od": True, "threads": [
+                {"node": 9 + t, "ops": [{"e": i, "path": p, "v": _some_value(en[5], i + k + t)}
+                                        for i, en in enumerate(dent)][::-1 if t else 1]} for t in range(2)]}
+    # stray responses on the client's channel at every idle moment of a history: before an op, between the
+    # write and the read-back, after the k-th response of a (segmented) transfer, before the final reads,
+    # before an abandoned upload
+    pick = lambda dt: [i for i, en in enumerate(ent) if en[5] == dt][0]
+    hist = [(pick(rc.UNSIGNED16), "index", 0xBEEF), (pick(rc.VISIBLE_STRING), "name", "a text of three segments"),
+            (pick(rc.DOMAIN), "index", bytes(range(30))), (pick(rc.REAL64), "getvar", 2.5),
+            (pick(rc.UNSIGNED64), "name", 0x0102030405060708)]
+    for kind in range(0, len(STALE_FRAMES) + 1):
+        for where in ("stale", "stale_rb"):
+            yield {"od": od, "mode": "inline", "stale_final": 1 + kind % 2, "stale_kind": kind,
+                   "threads": [{"node": 5, "ops": [{"e": e, "path": p, "v": v, where: 1 + (j + kind) % 2,
+                                                    "stale_kind": kind} for j, (e, p, v) in enumerate(hist)]}]}
+        for at in range(1, 13 if (thorough or kind < 2) else 0):
+            yield {"od": od, "mode": "inline", "threads": [{"node": 5, "ops": [
+                {"e": e, "path": p, "v": v, "stale_seg": at, "stale_kind": kind} for (e, p, v) in hist] + [
+                {"e": hist[1][0], "path": "name", "partial": 9, "buf": 0, "stale_seg": 1 + at % 2, "stale_kind": kind},
+                {"e": hist[0][0], "path": "index", "v": 0x1234, "stale_rb": 1}]}]}
     # several members of one record / several objects written one after the other, then re-read
     rec = [i for i, en in enumerate(ent) if not en[4]]
     for a in range(0, len(rec) - 3, 3):
@@ -715,22 +1060,17 @@ def enum_cases(thorough):
             mk = lambda off: [{"e": i, "path": "index", "v": _some_value(ent[i][5], i + off)} for i in range(a, min(a + 5, len(ent)))]
             yield {"od": od, "mode": "inline", "shared_od": True, "od_source": src,
                    "threads": [{"node": 21, "ops": mk(0)}, {"node": 22, "ops": mk(1)}, {"node": 23, "ops": mk(2)}]}
-    # deterministic interleavings of two segmented transfers to different nodes
-    sdt = [i for i, en in enumerate(ent) if en[5] == rc.DOMAIN][0]
-    vdt = [i for i, en in enumerate(ent) if en[5] == rc.VISIBLE_STRING][0]
-    for n in (5, 8, 15, 40):
-        for pattern in ([0, 1], [0, 0, 1], [1, 0, 0, 1, 1], [0, 1, 1, 0]):
-            yield {"od": od, "mode": "baton", "order": pattern * 40,
-                   "threads": [{"node": 11, "ops": [{"e": sdt, "path": "index", "v": bytes([0xAA]) * n},
-                                                    {"e": vdt, "path": "name", "v": "A" * n}]},
-                               {"node": 12, "ops": [{"e": sdt, "path": "index", "v": bytes([0x55]) * (n + 3)},
-                                                    {"e": vdt, "path": "name", "v": "b" * (n + 2)}]}]}
 
 
 def search(ctx):
     thorough = ctx.tier == "thorough"
-    ctx.enumerate(enum_cases(thorough), "type boundaries x access paths; 8/16-bit values; fixed 2-thread interleavings")
-    ctx.hypothesis(case_strategy(["inline"]), 4000 if thorough else 1000, salt=1)
+    # the concurrent families first: at that point the process has not run anything that could leave state
+    # behind in the library (stale-response histories do, by design)
+    ctx.enumerate(enum_concurrency(thorough), "2..3 threads with requests in flight at the same time x delivery "
+                                              "orders; fixed 2-thread interleavings of segmented transfers")
     ctx.hypothesis(case_strategy(["baton"]), 1500 if thorough else 300, salt=2)
+    ctx.enumerate(enum_cases(thorough), "type boundaries x access paths; dotted names; stray responses at every "
+                                        "idle moment; 8/16-bit values; shared dictionary object")
+    ctx.hypothesis(case_strategy(["inline"]), 4000 if thorough else 1000, salt=1)
     ctx.hypothesis(case_strategy(["dispatcher"]), 300 if thorough else 40, salt=3)
     ctx.hypothesis(case_strategy(["virtual"]), 150 if thorough else 20, salt=4)
